@@ -8,6 +8,9 @@ CHECKS={
  "C03":("model_checking","explicit-state search over the real server vs executable RFC 7047 reference",
    "States are table contents over a schema with every column type (atoms, enum, optionals, sets, maps with every key/value type, an immutable column); from every state ~1500 template transactions are executed on the real server: every condition function x column x argument (through select and delete), every mutator x column x argument, update/insert of every universe value, conjunctions, several mutations of one column, read-your-writes chains, select with columns, immutable columns, zero-timeout waits in three separately signed classes. Per-operation results and resulting contents of every ACCEPTED transaction are compared with mc/refmodel; accepted-but-reference-rejects is a violation, the converse is counted per class.",
    "Trusted: mc/refmodel as the reading of RFC 7047 5.1-5.2; value universes of 3-5 values per column; _uuid tolerated in projected selects. The model-API path (Create/Where().Update...) is exercised by C08 and C15, not here.","4 C03"),
+ "C08":("exploration","bounded-exhaustive enumeration against a brute-force RFC 7047 evaluator",
+   "Every table content of <= 3 rows over a 4-row universe (12 column types) x every single well-typed condition (8 functions x column x argument universe incl. empty sets/maps, unset optionals, _uuid, values no row has), a large set of pairs (thorough: all pairs of the equality-like conditions plus triples) x 8 (thorough 11) index configurations: RowsByCondition on one live cache per configuration is compared with a brute-force evaluation and thereby across configurations; afterwards the cache's indexes must still agree with a scan (selecting must not mutate); WhereAll/WhereAny must equal AND/OR and the delete operations they generate, executed on a real server holding the same rows, must remove exactly the rows List() reported.",
+   "Trusted: refmodel.EvalCond; enumeration is exhaustive for singles, sampled deterministically (fixed stride, no randomness) for pairs in the quick tier and stated as such.","4 C08"),
  "C04":("model_checking","explicit-state search over the real server vs executable RFC 7047 reference",
    "Breadth-first search (states = histories replayed on a fresh real server, deduplicated on rows + reference index) over an alphabet that adds/moves/removes references in every position (scalar, optional, set, map key, map value; strong/weak; root/non-root/self/cycle/chain) on two schemas; after every commit the invariants are recomputed from stored rows only, the rows are compared with the reference model's unique commit fixpoint, commit-time rejections are compared, and every transaction is replayed on a fresh database loaded with exactly the stored rows (history independence).",
    "Trusted: mc/refmodel (commit fixpoint, self references count), canonicalisation in mc/canon + mc/sys; alphabet of ~70 (quick) transaction templates over a 10-UUID pool, depth 3 / 4.","4 C04"),
